@@ -76,6 +76,8 @@ def main():
             open(os.path.join(outdir, name + ".diff"), "w").write(d)
             idx.append("%s %s" % (name, ",".join(props)))
         shutil.rmtree(tmp)
+    # hand-made changes kept as static diffs (not generated from the table above)
+    idx.append("b27-index-verified-on-first-use C12,C19,C02")
     open(os.path.join(outdir, "INDEX"), "w").write("\n".join(idx) + "\n")
     print("wrote %d benign changes" % len(idx))
 main()
